@@ -526,7 +526,7 @@ PROPS = {
                     ("mix", 1024, 1000000, 30, 40), ("cuts", 256, None, 20, 30), ("big", 1048576, None, 5, 16)],
             "conn": [("big", 1048576, None, 4, 14)], "conc": [("base", 200)], "slow": True,
             "monitor_kinds": ["STUCK", "SLOW"], "relevant": "RMWT"},
-    "C02": {"seq": [("cas", 1024, 1000000, 15, 40), ("cas", 1024, None, 80, 50), ("mix", 1024, None, 30, 40), ("ttl", 1024, None, 30, 40),
+    "C02": {"seq": [("cas", 1024, 1000000, 15, 40), ("cas", 1024, 150, 15, 40), ("cas", 1024, None, 80, 50), ("mix", 1024, None, 30, 40), ("ttl", 1024, None, 30, 40),
                     ("counter", 1024, None, 30, 40)], "conc": [("base", 200), ("rmw", 100)], "pol": 100,
             "monitor_kinds": ["STUCK", "NONLIN", "VANISH", "GHOST"], "known_classes": True, "known_from": "C04", "relevant": "RMWTP"},
     "C03": {"seq": [("cas", 1024, None, 20, 30)], "conc": [("base", 500)], "pol": 150, "relevant": "RMTP"},
@@ -539,7 +539,7 @@ PROPS = {
             "conc": [("ttl", 300)], "monitor_kinds": ["STUCK", "NONLIN"], "known_classes": True, "known_from": "C04",
             "relevant": "RMWT"},
     "C06": {"seq": [("mix", 1024, 1000000, 15, 40), ("mix", 1024, None, 60, 40), ("cas", 1024, None, 40, 40), ("ttl", 1024, None, 40, 40),
-                    ("flush", 1024, None, 20, 40), ("mix", 64, None, 20, 40)],
+                    ("flush", 1024, None, 20, 40), ("mix", 64, None, 20, 40), ("cas", 1024, 150, 20, 40)],
             "conc": [("ttl", 300)], "monitor_kinds": ["STUCK", "NONLIN"], "known_classes": True, "known_from": "C04",
             "relevant": "RMWT"},
     "C07": {"seq": [("counter", 1024, 1000000, 15, 40), ("counter", 1024, None, 100, 50), ("cas", 1024, None, 20, 40), ("ttl", 1024, None, 20, 40)],
